@@ -57,7 +57,8 @@ def exOps : List Op :=
     .remove 0 kB, .save 0, .get 0 kB, .getv 0 kB 2, .set 0 kB (some [9]), .failsave 0, .rollback 0,
     .open_ 0 false .load 0, .set 0 kA (some [3]), .save 0, .crashopen true 1,
     .open_ 2 true .ro 0, .getv 2 kA 3, .open_ 0 true .load 0, .get 0 kA, .getv 0 kA 4,
-    .open_ 1 true .load 1, .prune 0 2, .get 0 kA, .vget 0 kA ]
+    .open_ 1 true .load 1, .prune 0 2, .get 0 kA, .vget 0 kA,
+    .delstamp, .open_ 1 true .ro 0, .getv 1 kA 4, .open_ 0 true .load 0, .get 0 kA ]
 
 /-- a writer commits v1, v2; a second handle runs `Load()` with its
 `discoverVersions` scan taken before commit v2 (skew 1), so it sees latest = 1
@@ -138,6 +139,30 @@ theorem rebuild_cut_points {db : DB} {h : Handle} (hi : DBInv db)
     (ht : db.tree h.version = some h.work) (he : ensureDecision db h = .rebuild) (n : Nat) :
     DBInv (applyWrites db ((rebuildWrites db h).take n)) :=
   (rebuild_take_inv hi ht (fun S hS => Nat.le_of_lt ((ensure_rebuild he).2 S hS)) n).1
+
+/-- entries WITHOUT a stamp — the ADR's remediation (stamp deleted by hand) or an Import
+abandoned at any cut point of `dropFastIndex` — keep the invariant ... -/
+theorem missing_stamp_preserves_inv (st : State) (n : Nat) (hi : Inv st) :
+    Inv (step st .delstamp).1 ∧ Inv (step st (.crashimport n)).1 :=
+  ⟨step_inv st _ hi rfl, step_inv st _ hi rfl⟩
+
+/-- ... because a MISSING stamp closes the fast path of every immutable snapshot
+(`getImmutable`'s gate is `ok && stamp >= version`), whatever entries are on disk. -/
+theorem missing_stamp_disables_view_fast_path {db : DB} (hs : db.stamp = none) (fo : Bool) (ver : Ver)
+    {v : View} (hg : getImmutable db fo ver = some v) : v.fast = false := by
+  unfold getImmutable at hg
+  cases ht : db.tree ver with
+  | none => rw [ht] at hg; simp at hg
+  | some m =>
+    rw [ht, hs] at hg
+    simp only at hg
+    split at hg <;> (simp only [Option.some.injEq] at hg; subst hg; simp)
+
+/-- stale entries on disk and no stamp, reached through the real API. -/
+example : (run State.init (exOps.take 20 ++ [.crashimport 1])).1.db.stamp = none ∧
+    OMap.get (run State.init (exOps.take 20 ++ [.crashimport 1])).1.db.fast kA = some (2, [2]) ∧
+    ((run State.init (exOps.take 20 ++ [.crashimport 1])).1.db.tree 4).map (fun m => OMap.get m kA) =
+      some (some (4, [3])) := by decide
 
 /-- any restart (any slot, option, load mode, discover skew) keeps the invariant. -/
 theorem restart_preserves_inv (st : State) (slot : Nat) (fast : Bool) (mode : Mode) (skew : Nat)
